@@ -1,5 +1,6 @@
 import ElexModel.Core.Gauss
 import ElexModel.Gen.C15
+import ElexModel.Core.MathUtils
 import ElexModel.Lemmas.Num
 import Mathlib.Data.Rat.Defs
 import Mathlib.Tactic.Linarith
@@ -357,3 +358,29 @@ theorem source_assign_eq_source (conf groups : List Key) (L : ℕ) (g : Key) (hg
   rw [fitRowsSrc_eq]; exact assign_eq_source conf groups L g hg hlen
 
 end ElexModel.Gauss
+
+/-! ### the calibration statistics: `weighted_median`, `compute_inflate` -/
+
+namespace ElexModel.MathUtils
+open ElexModel
+
+/-- `compute_inflate` as written in the source is Σx² / (Σx)² -/
+theorem bridge_inflate (xs : List ℚ) :
+    Gen.C15.compute_inflate (sumR (xs.map (fun x => x * x))) (sumR xs) = inflate xs := rfl
+
+/-- the steps of `weighted_median` that `wmedian` models (sort by value, running weights, the smallest value if it alone exceeds
+    one half, else the element after the last running weight `≤ ½`, or the midpoint when that running weight is exactly `½`), and the
+    arguments the gaussian fit calls the statistics with (baseline-normalised weights, per group) -/
+theorem bridge_statistics_shape :
+    Gen.C15.weighted_median_steps = ["indices_sorted = np.argsort(x)", "x_sorted = x[indices_sorted]", "weights_sorted = weights[indices_sorted]", "weights_cumulative = np.cumsum(weights_sorted)", "if weights_cumulative[0] > 0.5:     LOG.warning('Warning: smallest x-value is greater than or equal to half the weight')     return x_sorted[0]", "median_index = np.where(weights_cumulative <= 0.5)[0][-1]", "if weights_cumulative[median_index] == 0.5:     lower = x_sorted[median_index]     upper = x_sorted[median_index + 1]     return (lower + upper) / 2", "return x_sorted[median_index + 1]"] ∧
+    Gen.C15.calibration_statistics = ["math_utils.compute_inflate(x[f'last_election_results_{estimand}'])", "math_utils.weighted_median(x.lower_bounds.values, (x[f'last_election_results_{estimand}'] / np.sum(x[f'last_election_results_{estimand}'])).to_numpy())", "math_utils.weighted_median(x.upper_bounds.values, (x[f'last_election_results_{estimand}'] / np.sum(x[f'last_election_results_{estimand}'])).to_numpy())", "math_utils.boot_sigma(x.lower_bounds.values, conf=(3 + alpha) / 4, winsorize=self.winsorize, seed=self.seed)", "math_utils.boot_sigma(x.upper_bounds.values, conf=(3 + alpha) / 4, winsorize=self.winsorize, seed=self.seed)"] :=
+  ⟨rfl, rfl⟩
+
+/-! kernel-checked examples of the model (each also runs against the implementation in the correspondence) -/
+example : wmedian [(3, 1/4), (1, 1/4), (2, 1/2)] = some 2 := by decide +kernel
+example : wmedian [(3, 1/4), (1, 1/2), (2, 1/4)] = some (3/2) := by decide +kernel     -- running weight exactly ½: midpoint
+example : wmedian [(1, 3/4), (2, 1/4)] = some 1 := by decide +kernel                   -- the smallest value alone exceeds ½
+example : wmedian [(1, 1/2), (2, 0), (3, 1/2)] = some (5/2) := by decide +kernel       -- the *last* running weight ≤ ½ counts
+example : inflate [1, 1, 2] = 6 / 16 := by decide +kernel
+
+end ElexModel.MathUtils
